@@ -216,8 +216,8 @@ def instantiate(spec):
         if spec["probe"] == "rawblock":
             return RawBlockProbe(spec["rets"]), (lambda lib, r=spec["rets"]: raw_block_probe_reference(r, lib))
         return BlockProbe(spec["rets"]), (lambda lib, r=spec["rets"]: block_probe_reference(r, lib))
-    mw = libgen.make_middleware(spec, inplace=True)
-    ref = libgen.make_middleware(spec, inplace=True)
+    mw = libgen.make_middleware(spec, inplace=spec.get("inplace", True))
+    ref = libgen.make_middleware(spec, inplace=spec.get("inplace", True))
     return mw, ref.transform
 
 
@@ -568,7 +568,8 @@ def w_into_library(acc):
     """parse_string(text, library=existing): probes and shipped middlewares see (and act on) the whole library."""
     docs = [0, 3, 7, 14, 15, 16, 17]
     stacks_ = [None, [], [LIB_PROBES[0]], [LIB_PROBES[0], LIB_PROBES[1]], [{"probe": "block", "rets": {"entry": "tag"}}], [{"probe": "block", "rets": {"string": "none"}}, LIB_PROBES[2]],
-               [{"mw": "ResolveStringReferences"}], [{"mw": "ResolveStringReferences"}, {"mw": "RemoveEnclosing"}, LIB_PROBES[1]], [SHIPPED[5], LIB_PROBES[0]]]
+               [{"mw": "ResolveStringReferences"}], [{"mw": "ResolveStringReferences"}, {"mw": "RemoveEnclosing"}, LIB_PROBES[1]], [SHIPPED[5], LIB_PROBES[0]],
+               [{"mw": "ResolveStringReferences", "inplace": False}, {"mw": "RemoveEnclosing", "inplace": False}], [{"mw": "NormalizeFieldKeys", "inplace": False}, LIB_PROBES[0]]]
     for doc in docs:
         for into in docs:
             for st_ in stacks_:
